@@ -24,13 +24,15 @@ from __future__ import annotations
 import ast
 from typing import Dict, List, Optional, Tuple
 
-from ..model import AnchorError, Class, Func, Project, UNKNOWN, UnknownIdiom, dotted, func_owner_class, short
+from ..model import AnchorError, Class, Func, Project, UNKNOWN, UnknownIdiom, dotted, func_owner_class, local_names, short
 
 PURE_BUILTINS = {'frozenset', 'list', 'tuple', 'set', 'str', 'len', 'sorted', 'bool'}
 PURE_METHODS = {'join', 'lower', 'upper', 'strip', 'split', 'casefold', 'title'}
 HEADER_SET = {'set_header', 'append_header'}
+LOG_METHODS = {'debug', 'info', 'warning', 'warn', 'error', 'critical', 'exception', 'log'}
 MAX_PATHS = 4096
 MAX_DEPTH = 3
+SMALL_COLLECTION = 3
 _ORDERING = {ast.Lt: '<', ast.LtE: '<=', ast.Gt: '>', ast.GtE: '>='}
 
 
@@ -182,6 +184,8 @@ class Executor:
             return bool(v[1])
         if k == 'call' and v[1] in ('frozenset', 'list', 'tuple', 'set') and not v[2]:
             return False
+        if k == 'call' and v[1] == 'bool' and len(v[2]) == 1:
+            return self.truthy(v[2][0])     # bool(x) is true exactly when x is
         return self.decide('truthy(%s)' % vkey(v))
 
     def equal(self, a, b) -> bool:
@@ -205,6 +209,19 @@ class Executor:
             if not container[1]:
                 return False
         if container[0] == 'call' and container[1] in ('frozenset', 'list', 'tuple', 'set') and not container[2]:
+            return False
+        # membership in a SMALL literal collection of constants is the disjunction of the equalities: ``m in ('OPTIONS',)`` is
+        # ``m == 'OPTIONS'``, ``h not in (None, '')`` is ``h is not None and h != ''`` (same atoms as the spelled-out form)
+        elts = None
+        if container[0] == 'list':
+            elts = list(container[1])
+        elif container[0] == 'const' and isinstance(container[1], (tuple, list, frozenset, set)):
+            elts = [const(x) for x in sorted(container[1], key=repr)]
+        if elts is not None and len(elts) <= SMALL_COLLECTION and item[0] != 'const' \
+                and all(e[0] == 'const' and isinstance(e[1], (str, int, bool, type(None))) for e in elts):
+            for e in elts:
+                if self.is_none(item) if e[1] is None else self.equal(item, e):
+                    return True
             return False
         return self.decide('in(%s,%s)' % (vkey(item), vkey(container)))
 
@@ -398,7 +415,7 @@ class Executor:
             if self.truthy_expr(e.test, env, func, depth):
                 return self.eval(e.body, env, func, depth)
             return self.eval(e.orelse, env, func, depth)
-        if isinstance(e, (ast.List, ast.Tuple)):
+        if isinstance(e, (ast.List, ast.Tuple, ast.Set)):
             if any(isinstance(x, ast.Starred) for x in e.elts):
                 raise UnknownIdiom('%s: starred element in %s' % (func.qual, short(e)))
             return ('list', tuple(self.eval(x, env, func, depth) for x in e.elts))
@@ -499,10 +516,65 @@ class Executor:
         if isinstance(f, ast.Attribute) and f.attr in PURE_METHODS and not c.keywords:
             recv = self.eval(f.value, env, func, depth)
             return ('call', f.attr, (recv,) + tuple(self.eval(a, env, func, depth) for a in c.args))
+        if self._is_log_call(c, env, func):
+            return NONE
         target = self.p.resolve_callable(func, f)
         if isinstance(target, Func) and not isinstance(f, ast.Attribute):
             return self._inline(target, c, env, func, depth, bound_self=False)
         raise UnknownIdiom('%s: call %s is outside the policy interpreter\'s vocabulary' % (func.qual, short(c)))
+
+    # ---------------------------------------------------------------- logging
+    def _module_logger(self, e, env, func: Func) -> bool:
+        """`e` names a module-level object bound exactly once in its module, to ``logging.getLogger(...)``, and is not shadowed by a local."""
+        if not isinstance(e, ast.Name) or e.id in env or e.id in local_names(func):
+            return False
+        m = func.module
+        name = e.id
+        val = m.consts.get(name)
+        if not isinstance(val, ast.Call) or name in m.functions or name in m.classes or name in m.imports:
+            return False
+        if self.p.resolve_expr(m, val.func, None) != 'logging.getLogger':
+            return False
+        stores = 0
+        for n in ast.walk(m.tree):
+            if isinstance(n, ast.Name) and n.id == name and not isinstance(n.ctx, ast.Load):
+                stores += 1
+            elif isinstance(n, (ast.Global, ast.Nonlocal)) and name in n.names:
+                return False
+            elif isinstance(n, ast.alias) and (n.asname or n.name) == name:
+                return False
+            elif isinstance(n, (ast.FunctionDef, ast.AsyncFunctionDef, ast.ClassDef)) and n.name == name:
+                return False
+        return stores == 1
+
+    def _log_arg(self, a, env) -> bool:
+        """an argument whose evaluation has no effect and that is rendered lazily (or by str formatting of an already computed value):
+        a constant, a plain local name (not the request/response objects), a tuple of those, an f-string / %-format over those"""
+        if isinstance(a, ast.Constant):
+            return True
+        if isinstance(a, ast.Name):
+            return a.id in env and a.id not in (self.req, self.resp, self.self_name)
+        if isinstance(a, ast.Tuple):
+            return all(self._log_arg(x, env) for x in a.elts)
+        if isinstance(a, ast.JoinedStr):
+            return all(isinstance(x, ast.Constant) or (isinstance(x, ast.FormattedValue) and x.format_spec is None and self._log_arg(x.value, env))
+                       for x in a.values)
+        if isinstance(a, ast.BinOp) and isinstance(a.op, ast.Mod) and isinstance(a.left, ast.Constant) and isinstance(a.left.value, str):
+            return self._log_arg(a.right, env)
+        return False
+
+    def _is_log_call(self, c: ast.Call, env, func: Func) -> bool:
+        """``_logger.debug('...', origin)``: a record method of a module-level logger (bound once to ``logging.getLogger(..)``) whose
+        arguments are constants and plain locals.  The logging package does not propagate handler errors (``Handler.handleError``), reads
+        nothing of the exchange beyond the values it is handed and its result is not a value of the policy: the statement is a no-op."""
+        f = c.func
+        if not (isinstance(f, ast.Attribute) and f.attr in LOG_METHODS and self._module_logger(f.value, env, func)):
+            return False
+        if any(isinstance(a, ast.Starred) for a in c.args) or any(k.arg is None for k in c.keywords):
+            return False
+        if not all(self._log_arg(a, env) for a in c.args):
+            return False
+        return all(k.arg in ('exc_info', 'stack_info', 'stacklevel') and isinstance(k.value, ast.Constant) for k in c.keywords)
 
     def _inline(self, target: Func, c: ast.Call, env, func, depth, bound_self: bool):
         if depth >= MAX_DEPTH:
